@@ -224,7 +224,8 @@ impl LuaDeclarationTree {
                 false
             }
             LuaScopeKind::LocalOrAssignStat => {
-                for child in scope.get_children() {
+                // Closest first: in `local a, a = 1, 2` the later name shadows the earlier one.
+                for child in scope.get_children().iter().rev() {
                     if let ScopeOrDeclId::Decl(decl_id) = child
                         && f(decl_id.into())
                     {
